@@ -921,6 +921,7 @@ func cmdCheck(prop, tier string, only *regexp.Regexp) int {
 	labels := map[string]int{}
 	var samples []interface{}
 	var harnessRows []map[string]interface{}
+	rowByHarness := map[string]map[string]interface{}{}
 	replayed := 0
 	byHarness := map[string]*HarnessMeta{}
 	for i := range selected {
@@ -984,7 +985,24 @@ func cmdCheck(prop, tier string, only *regexp.Regexp) int {
 			"paths_cut_by_assume": r.stats.PathsAborted, "choice_points": r.stats.ChoicePoints, "assert_queries": r.stats.AssertQueries,
 			"assert_needing_solver": r.stats.AssertNontriv, "feasibility_queries": r.stats.FeasQueries, "solver_queries": r.solverQ,
 			"solver_s": round2(r.solverTime.Seconds()), "wall_s": round2(r.wall.Seconds()), "violations": len(r.violations), "inconclusive": r.inconc}
-		harnessRows = append(harnessRows, row)
+		if prev, ok := rowByHarness[hm.Name]; ok {
+			for _, k := range []string{"paths", "paths_cut_by_assume", "choice_points", "assert_queries", "assert_needing_solver", "feasibility_queries", "solver_queries", "violations"} {
+				prev[k] = prev[k].(int) + row[k].(int)
+			}
+			prev["solver_s"] = round2(prev["solver_s"].(float64) + row["solver_s"].(float64))
+			prev["worker_wall_s"] = round2(prev["worker_wall_s"].(float64) + row["wall_s"].(float64))
+			prev["tasks"] = prev["tasks"].(int) + 1
+			if len(r.inconc) > 0 {
+				prev["inconclusive"] = r.inconc
+			}
+		} else {
+			row["tasks"] = 1
+			row["worker_wall_s"] = row["wall_s"]
+			delete(row, "wall_s")
+			delete(row, "shard")
+			rowByHarness[hm.Name] = row
+			harnessRows = append(harnessRows, row)
+		}
 		for _, ic := range r.inconc {
 			inconclusive = append(inconclusive, hm.Name+": "+ic)
 		}
@@ -1172,7 +1190,7 @@ func cmdCheck(prop, tier string, only *regexp.Regexp) int {
 			"evaluations":                   agg.asserts,
 			"distinct_nontrivial":           agg.nontriv,
 			"rule": "states = complete symbolic paths of the harness through the real SSA; transitions = choice points (symbolic branches with both sides feasible, nd.Choice case splits); " +
-				"evaluations = assertion instances reached; distinct_nontrivial = assertion instances whose formula was not decided by constant folding and was sent to the SMT solver (pc ∧ ¬assert)",
+				"evaluations = assertion instances reached (one per assertion per path); distinct_nontrivial = those instances (each under a different path condition) that needed the solver: either the query pc ∧ ¬assert was sent to it, or the assertion was constant on a path whose symbolic path condition had been established by solver feasibility queries; instances on paths with an empty path condition and constant outcome are not counted",
 			"exhaustive":            len(inconclusive) == 0,
 			"technique":             "bounded symbolic execution of go/ssa built from /repo's working tree; every assertion decided by SMT (unsat = holds for all values within bounds)",
 			"harnesses":             harnessRows,
